@@ -326,6 +326,33 @@ def run_native_unit(uname, ucfg, tier, scratch):
         out["reason"] = f"native enumeration could not run: {e}"
         out["wall_s"] = time.time() - t0
         return out
+    aborted = "memory allocation of" in text or "signal: 6" in text or "SIGABRT" in text or "SIGSEGV" in text
+    if aborted:
+        # the process died (allocation failure / abort cannot be caught inside the test): run it
+        # again with tracing so that the last TRY line names the input, and report that input
+        try:
+            pr2 = subprocess.run(cmd, cwd=ws, capture_output=True, text=True, timeout=ucfg.get("timeout", 900),
+                                 env=dict(env, VERIF_TRACE="1"))
+            tries = [l for l in (pr2.stdout + pr2.stderr).splitlines() if l.startswith("TRY ")]
+        except Exception:
+            tries = []
+        why = next((l.strip() for l in text.splitlines() if "memory allocation of" in l or "signal:" in l), "process aborted")
+        last = tries[-1][4:] if tries else "kind=" + list(ucfg["obligations"])[0] + " (input unknown)"
+        for kind, oname in ucfg["obligations"].items():
+            hit = f"kind={kind} " in last + " "
+            rec = {"name": f"{uname}:{oname}", "backend": "native", "kind": "bounded", "bound": ucfg.get("bound"),
+                   "harness": ucfg["test"], "function": None, "time_s": time.time() - t0, "solver_s": 0.0,
+                   "status": "failed" if hit else "undecided",
+                   "reason": f"process aborted ({why}) on input {last}"[:600] if hit else "enumeration aborted before completing",
+                   "checks": len(tries), "covers": [1, 1], "detail": last, "form": "native-exhaustive-enumeration"}
+            out["obligations"].append(rec)
+            if hit:
+                out["native_found"][rec["name"]] = ["FOUND " + last + " (process aborted: " + why + ")"]
+        if not any(o["status"] == "failed" for o in out["obligations"]):
+            out["status"] = "undecided"
+            out["reason"] = "native enumeration aborted: " + why
+        out["wall_s"] = time.time() - t0
+        return out
     found = [l for l in text.splitlines() if l.startswith("FOUND ")]
     searched = [l for l in text.splitlines() if l.startswith("searched ")]
     ran = re.search(r"test result: (ok|FAILED)\. (\d+) passed; (\d+) failed", text)
